@@ -367,8 +367,22 @@ func (v *DataModelView) GenerateDataView(dataParam *DataModelParam) string {
 	// typeMap := dataParam.App.GetTypes()
 	// TODO: Actually put The app/project name and the app in a struct so strings.split and join dont need to be used
 	entityNames := []string{}
-	for _, app := range dataParam.Mod.Apps {
-		for entityName, entityValue := range app.GetTypes() {
+	// in name order: two types can have the same entity name (type C of application A.B and type B.C of
+	// application A are both A.B.C), and which of them is drawn must not depend on map iteration order.
+	appKeys := make([]string, 0, len(dataParam.Mod.Apps))
+	for appKey := range dataParam.Mod.Apps {
+		appKeys = append(appKeys, appKey)
+	}
+	sort.Strings(appKeys)
+	for _, appKey := range appKeys {
+		app := dataParam.Mod.Apps[appKey]
+		typeKeys := make([]string, 0, len(app.GetTypes()))
+		for typeKey := range app.GetTypes() {
+			typeKeys = append(typeKeys, typeKey)
+		}
+		sort.Strings(typeKeys)
+		for _, entityName := range typeKeys {
+			entityValue := app.GetTypes()[entityName]
 			entityName = syslutil.JoinAppName(app.GetName()) + "." + entityName
 			if entityValue.Type != nil {
 				typeMap[entityName] = entityValue
